@@ -3,6 +3,7 @@
 package lab
 
 import (
+	"encoding/base64"
 	"bufio"
 	"bytes"
 	"crypto/tls"
@@ -50,6 +51,21 @@ type C01Case struct {
 	// PAC: the same route, chosen by a PAC script (DIRECT, or PROXY <the upstream>) instead of the static configuration:
 	// what the script is shown of a request must not change what is forwarded.
 	PAC bool `json:"pac,omitempty"`
+	// Creds: the instance has site credentials for the target: they are added when the client sent no Authorization
+	// and leave a client's Authorization - of whatever scheme - alone
+	Creds bool `json:"creds,omitempty"`
+}
+
+const c01SiteCred = "siteuser:s1te-pass"
+
+// credOn: the case runs on an instance with site credentials (slow uploads and PAC routes have instances of their own)
+func (c C01Case) credOn() bool {
+	for _, r := range c.Reqs {
+		if r.PauseMs > 0 {
+			return false
+		}
+	}
+	return c.Creds && !c.PAC
 }
 
 // ---------------------------------------------------------------------------
@@ -119,6 +135,9 @@ func getEnv() (*c01Env, error) {
 		// the same three routes selected by a PAC script
 		mk("direct-pac", ProxyOpts{DenyDomains: deny, PAC: `function FindProxyForURL(url, host) { return "DIRECT"; }`})
 		mk("upstream-pac", ProxyOpts{DenyDomains: deny, PAC: `function FindProxyForURL(url, host) { return "PROXY ` + e.upstream.Addr + `"; }`})
+		mk("direct-cred", ProxyOpts{DenyDomains: deny, Credentials: []string{c01SiteCred + "@" + e.origin.Addr}})
+		mk("upstream-cred", ProxyOpts{Upstream: "http://" + e.upstream.Addr, DenyDomains: deny, Credentials: []string{c01SiteCred + "@origin.test:8080"}})
+		mk("mitm-cred", ProxyOpts{MITM: true, DenyDomains: deny, Credentials: []string{c01SiteCred + "@" + e.torigin.Addr}})
 		mk("mitm-pac", ProxyOpts{MITM: true, DenyDomains: deny, PAC: `function FindProxyForURL(url, host) { if (url.substring(0, 6) == "https:") return "DIRECT"; return "PROXY 127.0.0.1:1"; }`})
 		env = e
 	})
@@ -271,6 +290,7 @@ func genC01(t *rapid.T) C01Case {
 	}
 	sort.Ints(c.Cuts)
 	c.PAC = rapid.IntRange(0, 3).Draw(t, "pac") == 0
+	c.Creds = !c.PAC && rapid.IntRange(0, 3).Draw(t, "creds") == 0
 	return c
 }
 
@@ -395,6 +415,8 @@ func runC01once(e *c01Env, c C01Case) (fails []vstat.Failure) {
 		px = e.proxies[c.Config+"-rht"]
 	} else if c.PAC {
 		px = e.proxies[c.Config+"-pac"]
+	} else if c.credOn() {
+		px = e.proxies[c.Config+"-cred"]
 	}
 	hop := map[string]*Peer{"direct": e.origin, "upstream": e.upstream, "mitm": e.torigin}[c.Config]
 	key := func(clause string) string { return "C01:" + c.Config + ":" + clause }
@@ -616,6 +638,17 @@ func compareC01(c C01Case, s sentReq, got *Msg, clientIP string) (fails []vstat.
 			continue
 		}
 		have[ln] = append(have[ln], f.Value)
+	}
+	if c.credOn() && !r.Refused {
+		switch {
+		case nominated["authorization"] || c.HostCase:
+			// the client declared its Authorization hop-by-hop, or spelt the host in another letter case than the
+			// entry (entries are compared literally): whether the site credentials then apply is not stated
+			delete(want, "authorization")
+			delete(have, "authorization")
+		case len(want["authorization"]) == 0:
+			want["authorization"] = []string{"Basic " + base64.StdEncoding.EncodeToString([]byte(c01SiteCred))}
+		}
 	}
 	for ln, wv := range want {
 		hv := have[ln]
